@@ -14,3 +14,13 @@ mod streams_manager;
 
 // pub for criterion usage
 pub mod ogre_std;
+
+/// verification hooks (shim atomics + deterministic scheduler) -- see `src/verif.rs`
+#[cfg(feature = "verif")]
+pub mod verif;
+/// verification hooks: re-exports of otherwise crate-private items, for the external verification harness
+#[cfg(feature = "verif")]
+pub mod verif_exports {
+    pub use crate::incremental_averages::*;
+    pub use crate::streams_manager::*;
+}
